@@ -21,6 +21,7 @@ META = {
     "assumptions": [],
 }
 META["explanation"] += " R19.3 also requires all construction sites of one subscriber-state type to store the same number of owned references (a clone that owns fewer, e.g. a lazily boxed lock future, makes the counts depend on the handles' history)."
+META["explanation"] += ' R19.4 also sees SharedReadLock::downgrade; R19.7 also sees replacement through Clone::clone_from / mem::replace / swap / take.'
 
 SH = "shared::SharedObservable<"
 
